@@ -108,6 +108,45 @@ def _register_buildable_defaults_aware_traversers(cls: Type[Buildable]):
   )
 
 
+def _dag_structure(root: Any) -> collections.Counter:
+  """Returns the sharing structure of `root` as a multiset of path pairs.
+
+  Every element reachable from `root` contributes one `(path, first_path)`
+  entry, where `first_path` is the path at which the same object was first
+  visited (for the first visit, and for internable values, which are never
+  considered shared, this is `path` itself). Two structures have equal results
+  iff they have the same paths and every reference aliases the same node.
+
+  Args:
+    root: A Buildable (traversed with defaults taken into account).
+  """
+  registry = _defaults_aware_traverser_registry
+  first_paths = {}
+  keepalive = []  # Pins visited values, so that their ids are not reused.
+  structure = collections.Counter()
+
+  def visit(value, path):
+    # Internables might be equal in value but have different object ids (or
+    # the other way around), so they are never treated as shared.
+    if not daglish.is_internable(value):
+      value_id = id(value)
+      if value_id in first_paths:
+        structure[(path, first_paths[value_id])] += 1
+        return
+      first_paths[value_id] = path
+      keepalive.append(value)
+    structure[(path, path)] += 1
+    traverser = registry.find_node_traverser(type(value))
+    if traverser is None:
+      return
+    sub_values, _ = traverser.flatten(value)
+    for sub_value, element in zip(sub_values, traverser.path_elements(value)):
+      visit(sub_value, path + (element,))
+
+  visit(root, ())
+  return structure
+
+
 def _compare_buildable(x: Buildable, y: Buildable, check_dag: bool = False):
   """Compare if two Buildables are equal, including DAG structure."""
   assert isinstance(x, Buildable)
@@ -144,36 +183,12 @@ def _compare_buildable(x: Buildable, y: Buildable, check_dag: bool = False):
       return False
 
   # Compare the DAG structure.
-  # The DAG stracture comparison must traverse the whole DAG and sort the
-  # result by path, which is expensive. Thus, we compare values first so
-  # that most unequal cases will not reach the expensive DAG compare step.
+  # The DAG structure comparison must traverse the whole DAG, which is
+  # expensive. Thus, we compare values first so that most unequal cases will
+  # not reach the expensive DAG compare step.
   if check_dag:
-    x_elements = list(
-        daglish.iterate(
-            x,
-            memoized=True,
-            # Not to memorize internables during traversal, as they might
-            # be equal in value but have different object ids.
-            memoize_internables=False,
-            registry=_defaults_aware_traverser_registry,
-        )
-    )
-    y_elements = list(
-        daglish.iterate(
-            y,
-            memoized=True,
-            memoize_internables=False,
-            registry=_defaults_aware_traverser_registry,
-        )
-    )
-    x_paths = sorted([elt[1] for elt in x_elements])
-    y_paths = sorted([elt[1] for elt in y_elements])
-
-    if len(x_paths) != len(y_paths):
+    if _dag_structure(x) != _dag_structure(y):
       return False
-    for x_path, y_path in zip(x_paths, y_paths):
-      if x_path != y_path:
-        return False
 
   return True
 
